@@ -37,6 +37,10 @@ func runC03(c *Ctx) {
 	c02R3(c, "C02.R3")
 	c02R5(c, "C02.R5")
 	c02R6(c, "C02.R6")
+	// "blocked reads return, writes fail" after a close needs the close itself to complete: no wait with a lock held
+	// that Close needs (the one instance on the tree is the known finding D12)
+	c.importing = "C12"
+	nestedMonitorRules(c, "C12.R9", func(cl string) bool { return strings.HasPrefix(cl, "multiplex.") })
 	c.importing = ""
 }
 
@@ -94,6 +98,54 @@ func c03R1(c *Ctx, rule string) {
 	ls := p.Locksets()
 	held, _ := lockHeldByClass(ls.MustHeld(flagStore), a.writingM)
 	c.Check(held, rule, "write mutex held while the closing frame is built and sent", c.at(flagStore), "writingM ∈ must-hold set (all callers with active=true hold it)", "the closing frame is numbered without the write mutex: a concurrent Write can take the same number or be numbered after the close")
+	// a closing frame always carries at least one byte of padding: the encoder refuses an empty payload (C04.R6), and a
+	// refused closing frame leaves the stream/session marked closed with nothing sent and nothing torn down
+	for _, f := range p.FuncsOfPkg("internal/multiplex") {
+		if strings.HasSuffix(p.Pos(f.Pos()), "_test.go") {
+			continue
+		}
+		flags := false
+		allInstrs(f, func(i ssa.Instruction) {
+			if st, ok := i.(*ssa.Store); ok {
+				if fv, _ := fieldVar(st.Addr); fv == a.closing {
+					if k, isK := intConst(st.Val); isK && k != 0 {
+						flags = true
+					}
+				}
+			}
+		})
+		if !flags {
+			continue
+		}
+		allInstrs(f, func(i ssa.Instruction) {
+			st, ok := i.(*ssa.Store)
+			if !ok {
+				return
+			}
+			if fv, _ := fieldVar(st.Addr); fv != a.payload {
+				return
+			}
+			construct := "closing frame built in " + shortFn(p.ownerAnchor(f)) + " has a non-empty payload"
+			sl, isSl := st.Val.(*ssa.Slice)
+			if !isSl || sl.High == nil {
+				c.Undecided(rule, construct, c.at(i), "payload is not a bounded slice: "+Expr(st.Val))
+				return
+			}
+			lo := int64(0)
+			if sl.Low != nil {
+				k, isK := intConst(sl.Low)
+				if !isK {
+					c.Undecided(rule, construct, c.at(i), "payload start is not constant")
+					return
+				}
+				lo = k
+			}
+			b := &Bounds{}
+			hi, form, okH := b.LowerConst(sl.High)
+			c.Check(okH && hi-lo >= 1, rule, construct, c.at(i), fmt.Sprintf("length >= %d (lower form of the end: %s)", hi-lo, form),
+				fmt.Sprintf("cannot prove the padding of the closing frame is at least one byte (lower bound of its length: %d, ok=%v): for some draw the encoder refuses the frame with 'payload cannot be empty' and the close is abandoned half-way", hi-lo, okH))
+		})
+	}
 }
 
 func c03R2(c *Ctx, rule string) {
